@@ -158,6 +158,7 @@ type Step struct {
 	Res    string      `json:"res,omitempty"`
 	Count  bool        `json:"count,omitempty"`  // also render a declaration that spells the instance's call counter
 	Helper bool        `json:"helper,omitempty"` // also render a helper, once per instance
+	Use    []string    `json:"use,omitempty"`    // also render references "<pkgpath>.<Name>" through the import tracker (not modelled: Go-side checks only)
 	Defers []DeferStep `json:"defers,omitempty"`
 }
 
@@ -176,6 +177,9 @@ type Job struct {
 	Base  string   `json:"base"`
 	Gens  []Gen    `json:"gens"`
 	Out   string   `json:"out"` // prefix of the files the child writes: <out>.world.json, <out>.log, <out>.result.json
+	// Gate: if set, the child writes <out>.ready after NewContext and waits for this file to appear before it calls
+	// Execute (so that a tracer can be attached to exactly the Execute phase).
+	Gate string `json:"gate,omitempty"`
 }
 
 type Event struct {
@@ -278,6 +282,10 @@ func (s *state) call(name string, c gengo.Context, pkg, ty string) error {
 	}
 	if body != "" {
 		c.Render(snippet.Block(body))
+	}
+	for i, u := range st.Use {
+		k := strings.LastIndex(u, ".")
+		c.RenderT("var _ @x // "+fmt.Sprint(i)+"\n", snippet.Arg("x", snippet.PkgExpose(u[:k], u[k+1:])))
 	}
 	for i, d := range st.Defers {
 		d, id := d, i
@@ -481,8 +489,15 @@ func childMain(argv []string) int {
 		writeJSON(".result.json", ChildResult{NewContextErr: err.Error(), Class: "other"})
 		return 0
 	}
-	// marker on stderr: everything the process does from here on is Execute (used by the syscall-level crash runs)
-	_, _ = os.Stderr.WriteString("@@EXECUTE@@\n")
+	if job.Gate != "" {
+		_ = os.WriteFile(job.Out+".ready", []byte(fmt.Sprint(os.Getpid())), 0o644)
+		for i := 0; i < 20000; i++ {
+			if _, err := os.Stat(job.Gate); err == nil {
+				break
+			}
+			time.Sleep(time.Millisecond)
+		}
+	}
 	err = c.Execute(context.Background(), gengo.GetRegisteredGenerators(names...)...)
 	res := ChildResult{Class: "done"}
 	if err != nil {
